@@ -124,6 +124,21 @@ def run(ctx):
             ref = vlib.Case('ref', {name: data}, ['--file', '@' + name] + cmd, dest=dest, meta={'role': 'ref'})
             cases += [ref, vlib.Case('gz2', {name + '.gz': z2}, ['--file', '@' + name + '.gz'] + cmd, dest=dest,
                                      meta={'role': 'gz', 'ref': ref, 'name': name, 'level': 6, 'cmd': cmd[0], 'size': len(data), 'members': nm, 'how': how})]
+    # two compressed images in one run whose files have the same base name (in different directories), and two with different names:
+    # each drive must still show its own disc (whatever the decompressed copies are kept in must not be shared)
+    da = discs.gen_disc(r, variant='dfs', geom=(40, 10), max_files=4)
+    db = discs.gen_disc(r, variant='dfs', geom=(80, 10), max_files=4)
+    for dd_, tag_ in ((da, b'ZERO'), (db, b'ONE')):
+        if not dd_.cats[0].files:
+            dd_.cats[0].files = [discs.AbsFile(0x24, b'MENU', False, 0, 0, 2, b'menu of side ' + tag_ + r.bytes(300))]
+    ia, ib = da.encode(lambda n: bytes(n)), db.encode(lambda n: bytes(n))
+    fa, fb = da.all_files()[0][3], db.all_files()[0][3]
+    for (na, nb) in (('side0/disc.ssd', 'side1/disc.ssd'), ('p/first.ssd', 'q/second.ssd')):
+        for cmd in (['cat', '0'], ['cat', '1'], ['type', '--binary', b':0.' + bytes([fa.dir]) + b'.' + fa.shown_name()],
+                    ['type', '--binary', b':1.' + bytes([fb.dir]) + b'.' + fb.shown_name()], ['dump-sector', '1', '0', '1'], ['dump-sector', '0', '39', '9']):
+            ref = vlib.Case('ref', {na: ia, nb: ib}, ['--file', '@' + na, '--file', '@' + nb] + cmd, meta={'role': 'ref'})
+            cases += [ref, vlib.Case('gzpair', {na + '.gz': gz(ia, 6), nb + '.gz': gz(ib, 1)}, ['--file', '@' + na + '.gz', '--file', '@' + nb + '.gz'] + cmd,
+                                     meta={'role': 'gz', 'ref': ref, 'name': 'pair:' + na, 'level': 6, 'cmd': cmd[0], 'size': len(ia) + len(ib), 'how': 'two-images'})]
     if True:
         big = full_mmb(r)
         zb = gz(big, 1)
